@@ -403,6 +403,11 @@ func baseTerms(t *T, out map[string]*T) {
 	case "conv", "un":
 		baseTerms(t.Args[0], out)
 		return
+	case "ite":
+		for _, a := range t.Args {
+			baseTerms(a, out)
+		}
+		return
 	case "index":
 		// a lookup in a constant table depends on its key only
 		if len(t.Args) == 2 && tableOfTerm(t.Args[0]) != nil {
